@@ -246,6 +246,30 @@ def run(R, tier, seed, driver_ok):
             except RuntimeError as e:
                 R.count('clone-raises-after-fit')
                 continue
+            if rep % 2 == 1:
+                # a parameter replaced through set_params is what the estimator USES from then on: replace the array
+                # preprocessor by another array (the same points in another order) and refit on indicators into it —
+                # the refit must equal a fresh clone fitted the same way
+                pm = rng.permutation(len(X)); inv = np.argsort(pm)
+                B2 = np.ascontiguousarray(X[pm])
+                fa2 = (inv[np.asarray(fa[0])],) + tuple(fa[1:])
+                R.case(('c18', name, 'set_params-preprocessor', rep, X.tobytes().hex()[:24]), True, branch='set_params-then-fit')
+                try:
+                    with warnings.catch_warnings():
+                        warnings.simplefilter('ignore')
+                        est.set_params(preprocessor=B2)
+                        re2 = est.fit(*fa2).components_.copy()
+                        cl2 = clone(est).fit(*fa2).components_
+                    if est.get_params()['preprocessor'] is not B2:
+                        R.violation(f'{name}.set_params/preprocessor', f'{name}: get_params()[\'preprocessor\'] is not the array given to set_params', case)
+                    if re2.shape != cl2.shape or not np.allclose(re2, cl2, rtol=1e-9, atol=1e-12):
+                        R.violation(f'{name}.set_params/preprocessor-not-used', f'{name}: after set_params(preprocessor=B) the refit differs from a fresh clone fitted on the same indicators (max diff {np.abs(re2 - cl2).max() if re2.shape == cl2.shape else "shape"})', case)
+                    # same points, other order: the model is the one of the first fit as well
+                    if re2.shape != first.shape or not np.allclose(re2, first, rtol=1e-6, atol=1e-9):
+                        R.count('set_params-then-fit:model-differs-from-first-fit (order-sensitive learner)')
+                    est.set_params(preprocessor=prm['preprocessor']); est.fit(*fa)
+                except Exception as e:
+                    R.violation(f'{name}.set_params/preprocessor-{type(e).__name__}', f'{name}: refit after set_params(preprocessor=B) raised {type(e).__name__}: {str(e)[:100]}', case)
             R.case(('c18', name, 'clone-after-fit', rep, X.tobytes().hex()[:24]), True, branch='clone-after-fit')
             for what, got in (('clone(fitted).fit', c.components_), ('refit', again)):
                 if got.shape != first.shape or not np.allclose(got, first, rtol=1e-9, atol=1e-12):
